@@ -6,6 +6,7 @@ package main
 import (
 	"fmt"
 	"go/token"
+	"strings"
 
 	"golang.org/x/tools/go/ssa"
 )
@@ -280,4 +281,127 @@ func ruleL14(p *Prog, r *Report) {
 		})
 	}
 	r.Floor(R, "direct-build call sites", 1, n)
+}
+
+// L17 batch builders: (a) the next tree level is built only from at least two slabs of the level below (the
+// length of the very slice value that is handed to nextLevel*Slabs was tested on a dominating edge), so a level
+// that collapsed to one slab becomes the root instead of getting a one-child index slab; (b) the underfull last
+// slab of a level is merged into its left sibling only on the edge where the sibling cannot lend, and borrows
+// only where it can, both under the IsUnderflow edge.
+func ruleL17(p *Prog, r *Report) {
+	const R = "L17"
+	n := 0
+	for _, f := range p.TopFuncs() {
+		if p.IsTestFile(f.Pos()) {
+			continue
+		}
+		eachInstr(f, func(in ssa.Instruction) {
+			c, ok := in.(*ssa.Call)
+			if !ok || c.Call.StaticCallee() == nil {
+				return
+			}
+			nm := c.Call.StaticCallee().Name()
+			if nm != "nextLevelArraySlabs" && nm != "nextLevelMapSlabs" {
+				return
+			}
+			n++
+			arg := canon(c.Call.Args[len(c.Call.Args)-1])
+			good := false
+			for _, b := range f.Blocks {
+				ifi, ok := b.Instrs[len(b.Instrs)-1].(*ssa.If)
+				if !ok {
+					continue
+				}
+				bo, ok := ifi.Cond.(*ssa.BinOp)
+				if !ok {
+					continue
+				}
+				lenOf := func(v ssa.Value) bool {
+					cc, ok := canonConv(v).(*ssa.Call)
+					if !ok {
+						return false
+					}
+					bi, ok := cc.Call.Value.(*ssa.Builtin)
+					return ok && bi.Name() == "len" && canon(cc.Call.Args[0]) == arg
+				}
+				var k int64
+				var op token.Token
+				if kk, isK := constInt(bo.Y); isK && lenOf(bo.X) {
+					k, op = kk, bo.Op
+				} else if kk, isK := constInt(bo.X); isK && lenOf(bo.Y) {
+					k = kk
+					switch bo.Op { // mirror
+					case token.LSS:
+						op = token.GTR
+					case token.LEQ:
+						op = token.GEQ
+					case token.GTR:
+						op = token.LSS
+					case token.GEQ:
+						op = token.LEQ
+					default:
+						op = bo.Op
+					}
+				} else {
+					continue
+				}
+				// which edge establishes len >= 2 (the slice is never empty here: len == 1 is the only smaller case)
+				edge := -1
+				switch {
+				case op == token.EQL && k == 1, op == token.LSS && k == 2, op == token.LEQ && k == 1:
+					edge = 1
+				case op == token.NEQ && k == 1, op == token.GTR && k == 1, op == token.GEQ && k == 2:
+					edge = 0
+				}
+				if edge >= 0 && edgeDominates(b, edge, in.Block()) {
+					good = true
+				}
+			}
+			r.Decide(good, R, "next-level-needs-two:"+p.Name(f), p.InstrPos(in), "the slice handed to "+nm+" was tested to hold at least two slabs after its last change", "the next level can be built from a level that the tail merge reduced to a single slab: the tree gets a root index slab with one child instead of promoting that slab to root")
+		})
+		// (b) tail decision
+		eachInstr(f, func(in ssa.Instruction) {
+			c, ok := in.(ssa.CallInstruction)
+			if !ok || !c.Common().IsInvoke() {
+				return
+			}
+			nm := c.Common().Method.Name()
+			if nm != "Merge" && nm != "LendToRight" {
+				return
+			}
+			if !strings.Contains(f.Name(), "FromBatchData") {
+				return
+			}
+			n++
+			recv := c.Common().Value
+			good := false
+			under := false
+			for _, b := range f.Blocks {
+				ifi, ok := b.Instrs[len(b.Instrs)-1].(*ssa.If)
+				if !ok {
+					continue
+				}
+				cc, ok := canon(ifi.Cond).(*ssa.Call)
+				if ok && cc.Common().IsInvoke() && cc.Common().Method.Name() == "CanLendToRight" && sameValue(cc.Common().Value, recv) {
+					if nm == "LendToRight" && edgeDominates(b, 0, in.Block()) {
+						good = true
+					}
+					if nm == "Merge" && edgeDominates(b, 1, in.Block()) {
+						good = true
+					}
+				}
+				if ex, ok := canon(ifi.Cond).(*ssa.Extract); ok && ex.Index == 1 {
+					if c2, ok := ex.Tuple.(*ssa.Call); ok && c2.Common().IsInvoke() && c2.Common().Method.Name() == "IsUnderflow" && edgeDominates(b, 0, in.Block()) {
+						under = true
+					}
+				}
+			}
+			if nm == "Merge" {
+				r.Decide(good && under, R, "tail-merge-only-if-no-lender:"+p.Name(f), p.InstrPos(in), "the underfull last slab is merged only where its left sibling cannot lend", "the last slab of a level can be merged although its sibling could lend (or without being underfull): the merged slab may exceed the maximum size")
+			} else {
+				r.Decide(good && under, R, "tail-borrow-only-if-lender:"+p.Name(f), p.InstrPos(in), "the underfull last slab borrows only where its left sibling can lend", "the last slab of a level borrows from a sibling that cannot lend (or without being underfull): a slab may drop below the minimum size")
+			}
+		})
+	}
+	r.Floor(R, "batch-builder level decisions", 6, n)
 }
